@@ -245,8 +245,13 @@ fn id(
     node: dom::XmlNode,
     _: &mut model::Context,
 ) -> error::Result<model::Value> {
-    if node.owner_document().map(|v| v.doc_type()).is_some() {
-        unimplemented!()
+    // Without a document type declaration no attribute has type ID: the result is empty.
+    let document = match &node {
+        dom::XmlNode::Document(v) => Some(v.clone()),
+        _ => node.owner_document(),
+    };
+    if document.and_then(|v| v.doc_type()).is_some() {
+        Err(error::Error::NotSupported("id() with a DTD".to_string()))
     } else {
         Ok(model::Value::Node(vec![]))
     }
